@@ -14,12 +14,12 @@ from symx import core
 FUNCTIONS = ["distance3d.hydroelastic_contact.make_tetrahedral_sphere/ellipsoid/cube/box/cylinder/capsule", "make_triangular_icosphere",
              "_split_to_tetrahedra", "_split_triangular_prism_to_tetrahedra", "_split_pyramid_to_tetrahedra",
              "_calc_long/medium/short_cylinder_volume_mesh_with_ma", "tetrahedral_mesh_volumes", "tetrahedral_mesh_aabbs",
-             "center_of_mass_tetrahedral_mesh"]
+             "center_of_mass_tetrahedral_mesh", "RigidBody.com / aabbs / tetrahedra_points caches across express_in histories (micro-bodies)"]
 STUBS = ["scipy.spatial.ConvexHull on the concrete witness mesh supplies the candidate facet list; its validity for ALL sizes of the path is an obligation, not an assumption"]
 OUTSIDE = ["icosphere orders 3-4 and fine resolution hints (thousands of tetrahedra)", "RigidBody.make_* wrappers (they only forward)", "rounding"]
 BOUNDS = {"quick": "sphere r in [0.01,100] orders 0-1; ellipsoid radii (3 reals) order 0; cube size; box sizes (3 reals, incl. the 'two/three sides equal' class boundaries); cylinder (r, l: long/medium/short classes) and capsule (r, h) with 3-7 vertices per circle",
           "thorough": "order 2, more ring counts"}
-WALL_BUDGET = {"quick": 360, "thorough": 2400}
+WALL_BUDGET = {"quick": 360, "thorough": 900}
 EXPECTED_EXCEPTIONS = ()
 
 
@@ -228,7 +228,63 @@ class Factory(Scenario):
                    tol=vec_close(SCALE(total6, com), acc, 1e-9 * scale * total6))
 
 
+class RigidBodyCaches(Scenario):
+    """RigidBody's lazily cached helpers (com, aabbs, tetrahedra_points) after express_in histories must agree
+    with direct computation on the current vertices."""
+    prop = "C17"
+    timeout_ms = 10000
+    budget_s = 60
+
+    def __init__(self, args):
+        self.args = args
+        self.params = [("tx", -1000.0, 1000.0), ("ty", -1000.0, 1000.0), ("tz", -1000.0, 1000.0)]
+
+    def build(self, cx):
+        from harness.coll_common import R0
+        return {"R": R0[self.args["r0"]], "t": [cx.P["tx"], cx.P["ty"], cx.P["tz"]]}
+
+    def call(self, cx, inp):
+        import distance3d.hydroelastic_contact as H
+        from harness.c16 import micro_body
+        from oracles import shapes as SH
+        from oracles import prims as PR
+        rb = micro_body(H, cx, self.args["tets"], (PR.RZ345, [0.25, -0.5, 1.0]))
+        if self.args["history"] in ("read_then_express", "twice"):
+            rb.com, rb.aabbs, rb.tetrahedra_points        # materialise the caches in the first frame
+        rb.express_in(cx.arr(SH.pose_rows(inp["R"], inp["t"])))
+        if self.args["history"] == "twice":
+            rb.com
+            rb.express_in(cx.arr(SH.pose_rows(PR.RGEN, [1.0, 2.0, -0.5])))
+        return {"com": rb.com, "aabbs": rb.aabbs, "tp": rb.tetrahedra_points, "V": rb.vertices_, "T": rb.tetrahedra_}
+
+    def observable(self, out):
+        return [out["com"]]
+
+    def check(self, cx, inp, out, ob):
+        V, T = out["V"], np.asarray(out["T"], dtype=int)
+        acc, tot, conds, tpc = [0.0, 0.0, 0.0], 0.0, [], []
+        for ti, t in enumerate(T):
+            pts = [list(V[int(i)]) for i in t]
+            a, b, c, d = pts
+            vol = ABS(det3(SUB(b, a), SUB(c, a), SUB(d, a)))
+            cen = [0.25 * (a[k] + b[k] + c[k] + d[k]) for k in range(3)]
+            acc = ADD(acc, SCALE(vol, cen))
+            tot = tot + vol
+            for k in range(4):
+                tpc.append(vec_eq(list(out["tp"][ti][k]), pts[k]))
+            for ax in range(3):
+                cs = [p[ax] for p in pts]
+                conds.append(AND(AND(*[out["aabbs"][ti][ax][0] <= x for x in cs]), OR(*[out["aabbs"][ti][ax][0] == x for x in cs]),
+                                 AND(*[out["aabbs"][ti][ax][1] >= x for x in cs]), OR(*[out["aabbs"][ti][ax][1] == x for x in cs])))
+        ob.require("cached_tetrahedra_points_current", exact=AND(*tpc))
+        ob.require("cached_aabbs_current", exact=AND(*conds))
+        ob.require("cached_com_current", exact=vec_eq(SCALE(tot, list(out["com"])), acc),
+                   tol=vec_close(SCALE(tot, list(out["com"])), acc, 1e-9 * 1000.0 * 16.0))
+
+
 def make(family, args):
+    if family == "rigid_body_caches":
+        return RigidBodyCaches(args)
     return Factory(args)
 
 
@@ -246,4 +302,8 @@ def jobs(tier, seed):
             J.append({"family": "cylinder", "args": {"kind": "cylinder", "rel": rel, "hint_k": hk}})
     for hk in ([2.0, 1.5] if tier == "quick" else [2.0, 1.5, 1.0]):
         J.append({"family": "capsule", "args": {"kind": "capsule", "hint_k": hk}})
+    for tets in (["corner"], ["cube_top", "regular"]):
+        for hist in ("express_only", "read_then_express", "twice"):
+            for r0 in ([7] if tier == "quick" else [0, 7, 13, 22]):
+                J.append({"family": "rigid_body_caches", "args": {"tets": tets, "history": hist, "r0": r0}})
     return J
